@@ -52,6 +52,36 @@ def drive_and_validate(run, cases, shards, mode="c10", prefix="C10:"):
     return events
 
 
+def err_carries_nothing(run, tier):
+    """(c) "a failed compilation returns no bindings" where a call can deliver: compile() with a file / directory / standard
+    output destination.  The scenarios of Delivery.tla in which the call must fail, or in which a formatter in reach fails,
+    are staged by the C20 driver (library calls) and judged by Trace_C20: an Err leaves the destination as it was."""
+    import shutil
+    from . import c20
+    plans = [p for p in c20.model(run) if p["api"] == "lib" and (p["input"] != "good" or p["fmt"] == "fails" or p["dest"] in ("readonly", "noparent", "stdout_full"))]
+    sets = c02.generate(run, tier, tag="clean", num=4 if tier == "quick" else 30, maxnodes=20, minnodes=8, maxfaults=0)
+    paths = {k: run.path("deliver_" + k + ".ndjson") for k in ("plans", "sets", "trace")}
+    core.write_ndjson(paths["plans"], plans)
+    core.write_ndjson(paths["sets"], sets)
+    scratch = run.path("fs")
+    shutil.rmtree(scratch, ignore_errors=True)
+    core.vharness(["c20", "--cases", paths["plans"], "--sets", paths["sets"], "--per-plan", "1" if tier == "quick" else "4", "--dir", scratch,
+                   "--cli", core.cargo_build_cli(), "--trace", paths["trace"]], threads=12)
+    shutil.rmtree(scratch, ignore_errors=True)
+    events = core.read_ndjson(paths["trace"])
+    consumed, verdicts = core.validate_trace("trace/Trace_C20.tla", c20.trace_cfg(run), paths["trace"], shards=1 if tier == "quick" else 4, timeout=3000)
+    keep = run.case_of
+    run.case_of = lambda ev: {k: ev.get(k) for k in ("api", "backend", "srcform", "mode", "dest", "input", "fmt", "asn")}
+    run.judge(events, verdicts, consumed)
+    run.case_of = keep
+    run.cov["failing_call_scenarios"] = len(plans)
+    run.cov["failing_call_events"] = len(events)
+    run.cov["failing_call_results"] = {}
+    for e in events:
+        k = f"{e.get('input')}/{e.get('fmt')}/{e.get('result')}"
+        run.cov["failing_call_results"][k] = run.cov["failing_call_results"].get(k, 0) + 1
+
+
 def check(tier):
     run = Run("C10", tier)
     abstract = model_check(run, tier)
@@ -63,6 +93,7 @@ def check(tier):
     cases = c02.generate(run, tier, **SIM[tier])
     run.case_of = lambda ev: cases[ev["case"]] if "case" in ev and ev["case"] < len(cases) else None
     events = drive_and_validate(run, cases, shards=4 if tier == "quick" else 16) + ev_abs
+    err_carries_nothing(run, tier)
     ins = [e for e in events if e["ev"] == "input"]
     run.cov["evaluations"] = len(cases) + len(abstract)
     run.cov["hook_events"] = len([e for e in events if e["ev"] not in ("input", "return", "compare")])
@@ -85,7 +116,9 @@ def check(tier):
     run.cov["samples"] = [{"asn": e["asn"][:600]} for e in ins[:3]]
     run.assumptions = ["the hook events are emitted where Pipeline.tla has its actions (rasn-compiler/src/verif.rs, cfg rasn_verif)",
                        "the fault of a definition (validate/generate warning) is read from the hook events of the same run",
-                       "a failed compilation returns no bindings by construction of the API (Result); nothing to observe",
+                       "compile_to_string(): a failed compilation returns no bindings by construction of the API (Result); compile(): the scenarios of "
+                       "Delivery.tla in which the call must fail or a formatter in reach fails are staged on the file system (library calls) and an Err must "
+                       "leave the destination as it was",
                        "generated items are attributed to definitions by name containment (names Ty<i>x are substring-free)"]
     return run.finish()
 
